@@ -21,6 +21,13 @@ type IntLit struct{ V int64 }
 type StrLit struct{ S string } // letters, spaces and a few safe punctuation marks; never numeric
 type BoolLit struct{ B bool }
 type ArrLit struct{ Elems []Expr }
+
+// MapLit is a string-keyed array literal ['a' => 1, ...] (keys distinct, non-numeric);
+// it only occurs as the source of a foreach.
+type MapLit struct {
+	Keys []string
+	Vals []Expr
+}
 type Var struct {
 	Name string
 	T    Type
@@ -126,7 +133,7 @@ type For struct {
 	Body     []Stmt
 }
 type Foreach struct {
-	Src    Expr // ArrLit or array Var
+	Src    Expr // ArrLit, array Var, or MapLit (then KeyVar holds string keys)
 	KeyVar string
 	ValVar string
 	Body   []Stmt
